@@ -13,16 +13,22 @@ META = {
             "sessions verify iff now < issue + capped lifetime, time tokens iff strictly inside the window, JWT "
             "time/claim/header/key checks are characterised exactly, and over all histories of issue / attempt / "
             "disable / enable with arbitrary clocks a passcode is accepted only inside its window, once, and "
-            "after at most ten refused attempts.  Constants and the comparison shapes are re-extracted from "
-            "/repo on every run; the models are tied to the code by differential runs evaluated inside Coq, "
-            "with HMAC/RSA/JSON values supplied by Go for exactly the arguments queried.",
+            "after at most ten refused attempts.  The same holds through every entry point (CheckState, CheckJSON, "
+            "the gate with its check callback, any caller-supplied jwt.Verifier or none, a card whose identity "
+            "cannot be fetched) and over every history of calls on one long-lived object, in particular on one "
+            "verifier whose card replaces, adds, removes or expires keys between calls: the objects hold "
+            "configuration only (fields and receiver writes extracted from the source), and each verification "
+            "depends on the token, the card in force at that moment and the clock.  Constants and the comparison "
+            "shapes are re-extracted from /repo on every run; the models are tied to the code by differential "
+            "runs evaluated inside Coq, with HMAC/RSA/JSON values supplied by Go for exactly the arguments queried.",
     "note": "Trusted: Coq kernel + vm_compute; translator gen/cred.go; harness c16 and roles/signer verif shims; "
             "HMAC-SHA256, SHA-256, RSA PKCS#1 v1.5 and encoding/json are functions (Section variables), the "
             "injectivity idealisation mac_binds and the no-forgery premise are named hypotheses of the theorems "
             "that use them; strings.Fields modelled for ASCII; time.Unix overflow near 2^63 s not modelled; no axioms.",
     "technique": "Coq proof (iff characterisations, invariant over all passcode histories) + go/ast extraction of "
                  "constants and guard shapes + exhaustive single-bit/prefix/extension mutation sweeps against the "
-                 "implementation + vm_compute correspondence",
+                 "implementation + usage-pattern streams (one object for many calls, callback result shapes, card "
+                 "histories, real clock, concurrent use) + vm_compute correspondence",
 }
 
 MODEL = ["theories/Cred/CredCorr.vo"]
@@ -180,10 +186,29 @@ def to_coq(c):
     if op == "sesscheck":
         exp = "(Some (%s, %s))" % (B(o.get("out")), Z(o["left"])) if o["ok"] else "None"
         return "CSessCheck %s %d %s %s %s" % (mtab(c.get("macs")), c["key"], Z(c["now"]), B(c.get("tok")), exp)
+    if op == "sessstate":
+        return "CSessState %s %d %s %s %s" % (mtab(c.get("macs")), c["key"], Z(c["now"]), B(c.get("tok")), bl(o["ok"]))
+    if op == "sessjson":
+        return "CSessJson %s %d %s %s %s %s" % (mtab(c.get("macs")), c["key"], Z(c["now"]), B(c.get("tok")),
+                                                bl(c.get("jsonok")), bl(o["ok"]))
+    if op == "jwtany":
+        return "CJwtAny %s %s %s %s %s %d %s" % (bl(c.get("vrej")), Z(c["now"]), B(c.get("tok")), ohdr(c.get("hp")),
+                                                 oclm(c.get("cp")), o["err"], oclm(o.get("claims")))
+    if op == "jwtrsfetch":
+        card = "[" + "; ".join(pkey(k) for k in c.get("card") or []) + "]"
+        return "CJwtRsFetch %s %s %s %s %s %s %s %s %d %s" % (
+            bl(c.get("nocard")), card, B(c.get("user")), B(c.get("host")), Z(c["now"]), B(c.get("tok")),
+            ohdr(c.get("hp")), oclm(c.get("cp")), o["err"], oclm(o.get("claims")))
     if op == "gatecheck":
         exp = "(Some (%s, %s))" % (B(o.get("out")), bl(o.get("refresh"))) if o["ok"] else "None"
         return "CGate %s %d %s %s %s %s" % (mtab(c.get("macs")), c["key"], Z(c["maxttl"]), Z(c["now"]),
                                             B(c.get("tok")), exp)
+    if op == "gatecb":
+        cb = "None" if c["cb"]["err"] else "(Some %s)" % Z(c["cb"]["lvl"])
+        exp = "None" if o["err"] else "(Some (%s, %s, %s, %s))" % (bl(o["ok"]), B(o.get("out")), Z(o.get("left", 0)),
+                                                                  bl(o.get("refresh")))
+        return "CGateCb %s %d %s %s %s %s %s" % (mtab(c.get("macs")), c["key"], Z(c["maxttl"]), Z(c["now"]),
+                                                B(c.get("tok")), cb, exp)
     if op == "chalcheck":
         ct = "(Some %s)" % Z(c["t0"]) if c.get("t0") is not None else "None"
         return "CChal %s %d %s %s %s %s %d" % (mtab(c.get("macs")), c["key"], Z(c["window"]), Z(c["now"]),
@@ -252,7 +277,12 @@ def pass_oracle(c):
                "expire": int(st0["expire"]) if st0.get("hasexpire") else None,
                # a counter the operations cannot have produced is not read as a count of attempts
                "wrong": st0["tried"] if 0 <= st0["tried"] <= 1000 else 0, "used": st0["consumed"]}
+    disabled = False
     for i, (op, res) in enumerate(zip(c["ops"], c["obs"].get("pass") or [])):
+        if op["op"] in ("disable", "enable") and res["r"] == 0:
+            disabled = op["op"] == "disable"
+        if op["op"] == "try" and res["r"] == 0 and disabled:
+            return "accepted-while-disabled", "attempt %d set up an identity for a role that was disabled" % i
         if op["op"] == "new" and res["r"] == 0:
             issued += 1
             st = res["st"]
@@ -381,13 +411,17 @@ class Oracle:
                 return ("jwt-time:%s" % ("accepted-outside" if o["ok"] else "rejected-inside"),
                         "CheckTime iat=%s exp=%s now=%s gave ok=%s" % (c["c"]["iat"], c["c"]["exp"], c["now"], o["ok"]))
             return None
+        if op in ("jwths", "jwtrs", "selfverify", "jwtany", "jwtrsfetch", "exchange") and o["ok"] and \
+                (c.get("hp") is None or c.get("cp") is None):
+            return (fam + ":accepted-unparsable-segment",
+                    "a token was accepted although encoding/json does not read its header or claims segment")
         if op == "jwths" and o["ok"] and c.get("hp") != c.get("pin"):
             return "jwt-hs:accepted-unpinned-header", "a token whose header is not the pinned one was accepted"
         if op == "jwths" and o["ok"] and c.get("cp") and all(abs(int(c["cp"][f])) <= 2 ** 62 for f in ("iat", "exp")) \
                 and not jwt_time_ok(c["cp"], int(c["now"])):
             return ("jwt-hs:accepted-outside-parsed-time",
                     "a token was accepted outside the time window of the claims encoding/json parses from it")
-        if op in ("jwtrs", "selfverify") and o["ok"] and txt((c.get("hp") or {}).get("alg", "")) != b"RS256":
+        if op in ("jwtrs", "selfverify", "jwtrsfetch") and o["ok"] and txt((c.get("hp") or {}).get("alg", "")) != b"RS256":
             return "jwt-rs:accepted-other-alg", "a token whose header alg is not RS256 was accepted"
         if mu is None:
             return None
@@ -415,7 +449,14 @@ class Oracle:
                 return ("challenge:%s" % ("accepted-outside-window" if accepted else "genuine-rejected"),
                         "challenge of %d checked at %d with window %d gave %s" % (t0, now, w, accepted))
         elif op == "exchange":
-            pass
+            cp = c.get("cp")
+            if (not accepted and mu["class"] == "genuine" and cp and jwt_time_ok(cp, now) and int(c["ttl"]) > 0
+                    and all(not want or want == got for want, got in
+                            ((c.get("data", ""), cp["iss"]), (c.get("host", ""), cp["aud"]), (c.get("user", ""), cp["sub"])))
+                    and any(k["parse"] and k["sigok"] and k["type"] == "7373682d727361" and k["id"] == c["hp"]["kid"]
+                            and (int(k["nvb"]) <= 0 or now >= int(k["nvb"]) * NS) and now <= int(k["nva"]) * NS
+                            for k in (c.get("card") or [])[:1])):
+                return "exchange:genuine-rejected", "an access token issued for this issuer, audience and user was refused inside all its windows"
         elif op in ("sesscheck", "gatecheck"):
             if op == "gatecheck" and accepted and int(c["maxttl"]) > 0 and \
                     bool(o.get("refresh")) != (info["expires"] - now < int(c["maxttl"]) // 5):
@@ -428,6 +469,26 @@ class Oracle:
                 return "session:genuine-rejected", "unexpired session rejected"
             if accepted and o.get("out", "") != info.get("payload", ""):
                 return "session:wrong-payload", "session check returned other data than was signed"
+        elif op in ("sessstate", "sessjson"):
+            # CheckState: a live session without payload; CheckJSON: a live session whose payload is JSON
+            alive = now < info["expires"]
+            payload = txt(info.get("payload", ""))
+            fits = (payload == b"") if op == "sessstate" else bool(c.get("jsonok"))
+            if accepted and not alive:
+                return fam + ":accepted-at-or-after-expiry", "%s accepted %d ns after the expiry" % (op, now - info["expires"])
+            if accepted and not fits:
+                return fam + ":accepted-wrong-kind", "%s accepted a session whose payload is %r" % (op, payload)
+            if alive and fits and not accepted:
+                return fam + ":genuine-rejected", "%s refused a live session of its kind" % op
+            if accepted and op == "sessjson" and o.get("out", "") != info.get("payload", ""):
+                return fam + ":wrong-payload", "CheckJSON delivered other data than was signed"
+        elif op == "jwtany":
+            want = (not c.get("vrej")) and jwt_time_ok(c["cp"], now)
+            if accepted != want:
+                return ("jwt-any:%s" % ("accepted-against-verifier-or-time" if accepted else "genuine-rejected"),
+                        "DecodeAndVerify with a %s verifier at %d gave %s" % (c.get("note"), now, accepted))
+            if accepted and (not o.get("payok") or o.get("claims") != c["cp"]):
+                return "jwt-any:wrong-payload", "DecodeAndVerify returned other claims/payload than the token holds"
         elif op == "tscheck":
             w = abs(int(c["window"]))
             want = abs(now - info["t0"]) < w
@@ -448,7 +509,10 @@ class Oracle:
                         "HS256 token checked at %d gave %s" % (now, accepted))
             if accepted and (not o.get("payok") or o.get("claims") != c["cp"]):
                 return "jwt-hs:wrong-payload", "verification returned other claims/payload than were signed"
-        elif op in ("jwtrs", "selfverify"):
+        elif op in ("jwtrs", "selfverify", "jwtrsfetch"):
+            if op == "jwtrsfetch" and c.get("nocard") and accepted:
+                return ("jwt-rs:accepted-without-identity",
+                        "token accepted although fetching the identity failed (%s)" % c.get("note"))
             kid = c["hp"]["kid"]
             keys = [k for k in c.get("card") or [] if k["id"] == kid]
             key_ok = bool(keys) and any(
@@ -470,16 +534,43 @@ class Oracle:
                 return "jwt-rs:named-key-rejected", "token signed by the valid key its header names was rejected"
             if accepted and not want_time:
                 return "jwt-rs:accepted-outside-time", "RS256 token accepted outside its time window"
-            if accepted and op == "selfverify":
+            if accepted and op in ("selfverify", "jwtrsfetch"):
                 cl = o["claims"]
                 user, host = c.get("user", ""), c.get("host", "")
                 if txt(cl["iss"]) != b"." or (user and cl["sub"] != user) or (host and cl["aud"] != host):
                     return "jwt-self:accepted-foreign-claims", "self token accepted for another user/host/issuer"
-            if (not accepted and want_time and mu["class"] == "genuine" and keys and
+            if (not accepted and want_time and mu["class"] == "genuine" and keys and not c.get("nocard") and
                     all(k["type"] == "7373682d727361" for k in keys[:1]) and
                     (int(keys[0]["nvb"]) <= 0 or now >= int(keys[0]["nvb"]) * NS) and now <= int(keys[0]["nva"]) * NS):
                 return "jwt-rs:genuine-rejected", "issued RS256 token rejected inside all its windows"
         return None
+
+
+def pairs_oracle(c):
+    """Auxiliary observations: each carries the value the property text implies."""
+    for p in c.get("pairs") or []:
+        if p["got"] != p["want"]:
+            return p["name"], "%s: observed %r, the property implies %r (%s)" % (p["name"], p["got"][:200], p["want"][:200],
+                                                                                c.get("note", ""))
+    return None
+
+
+def usage_oracle(c):
+    """Implementation-only usage cases: accepted only if genuine, in time and with
+    the consent of every caller-supplied callback; then with the signed payload."""
+    f, o = c["facts"], c["obs"]
+    if o.get("crash"):
+        return "crash", "the code under test panicked: %s" % o["crash"][:200]
+    if o["ok"]:
+        for fact, key in (("genuine", "accepted-not-genuine"), ("intime", "accepted-out-of-time"),
+                          ("consent", "accepted-without-consent")):
+            if not f[fact]:
+                return key, "%s: accepted" % c.get("note", "")
+        if f.get("payload") and o.get("out", "") != f["payload"]:
+            return "wrong-payload", "%s: delivered %r, signed %r" % (c.get("note", ""), txt(o.get("out", "")), txt(f["payload"]))
+    elif f["genuine"] and f["intime"] and f["consent"]:
+        return "genuine-rejected", "%s: refused" % c.get("note", "")
+    return pairs_oracle(c)
 
 
 def case_bases(c, orc):
@@ -561,30 +652,9 @@ def corr_eval(ck, full, orc):
     return sorted(mism), failed
 
 
-def run(ck):
-    scale = 1 if not ck.thorough else 24
-    ck.gen()
-    built = ck.coq_make(MODEL + PROOFS, clean=ck.thorough)
-    ck.obligations = ck.count_statements(STATEMENT_FILES)
-    proofs_ok = all(built.get(x) for x in PROOFS)
-    if proofs_ok:
-        if ck.audit("theories/Props/C16.v"):
-            ck.discharged = list(ck.obligations)
-    if ck.thorough and proofs_ok:
-        ck.coqchk(["Verif.Props.C16"])
-    code_tie.run(ck, "C16")
-
-    binp = ck.build_harness("c16")
-    cases = []
-    if binp:
-        rc, out, err = vlib.sh2([binp, "-seed", str(ck.seed), "-n", str(scale)], timeout=1500)
-        if rc != 0:
-            ck.broken.append({"what": "harness run failed", "detail": err[-1500:]})
-        for line in out.splitlines():
-            if line.startswith("{"):
-                cases.append(json.loads(line))
-
-    # implementation-only oracle (also the search for a failing input)
+def oracle_pass(ck, cases):
+    """The implementation-only oracle over all harness cases (also the search for a
+    failing input).  Returns (oracle, the cases the Coq model is evaluated on)."""
     orc = Oracle()
     full = []
     sweep_evals = 0
@@ -609,6 +679,15 @@ def run(ck):
                              {"case": c, "expected": txt(c.get("user", "")).decode("utf8", "replace"),
                               "observed": txt(c.get("host", "")).decode("utf8", "replace")})
             continue
+        if c["op"] == "usage":
+            ck.count(c["stream"], key=(c["note"], json.dumps(c.get("facts"), sort_keys=True)))
+            v = usage_oracle(c)
+            if v:
+                ck.violation("impl:%s:%s" % (c["stream"], v[0]), v[1],
+                             {"case": c, "expected": "accepted only if genuine, inside its time window and with the consent "
+                                                     "of every callback; auxiliary observations as the property implies",
+                              "observed": c["obs"]})
+            continue
         if c["op"] == "passconc":
             ck.count(c["stream"], key=(c["note"], c.get("n", 0)))
             if c["obs"].get("crash") or not c["obs"]["ok"]:
@@ -629,6 +708,10 @@ def run(ck):
         ck.count(c["stream"], key=json.dumps({k: v for k, v in c.items() if k not in ("i", "obs", "mut", "tokid")},
                                              sort_keys=True), trivial=trivial)
         v = orc.judge(c)
+        if not v and c.get("pairs"):
+            pv = pairs_oracle(c)
+            if pv:
+                v = ("%s:%s" % (c.get("fam", c["op"]), pv[0]), pv[1])
         if v:
             ck.violation("impl:" + v[0], v[1],
                          {"case": c, "expected": "rejected unless bit-for-bit the issued token, inside its time "
@@ -640,6 +723,34 @@ def run(ck):
         s = {k: c[k] for k in c if k != "i"}
         if len(json.dumps(s)) < 4000:
             ck.sample(s)
+
+    return orc, full
+
+
+def run(ck):
+    scale = 1 if not ck.thorough else 24
+    ck.gen()
+    built = ck.coq_make(MODEL + PROOFS, clean=ck.thorough)
+    ck.obligations = ck.count_statements(STATEMENT_FILES)
+    proofs_ok = all(built.get(x) for x in PROOFS)
+    if proofs_ok:
+        if ck.audit("theories/Props/C16.v"):
+            ck.discharged = list(ck.obligations)
+    if ck.thorough and proofs_ok:
+        ck.coqchk(["Verif.Props.C16"])
+    code_tie.run(ck, "C16")
+
+    binp = ck.build_harness("c16")
+    cases = []
+    if binp:
+        rc, out, err = vlib.sh2([binp, "-seed", str(ck.seed), "-n", str(scale)], timeout=1500)
+        if rc != 0:
+            ck.broken.append({"what": "harness run failed", "detail": err[-1500:]})
+        for line in out.splitlines():
+            if line.startswith("{"):
+                cases.append(json.loads(line))
+
+    orc, full = oracle_pass(ck, cases)
 
     # correspondence: the models evaluated inside Coq on the same inputs
     model_ok = all(built.get(x) for x in MODEL)
@@ -665,7 +776,8 @@ def run(ck):
         level="proof",
         checker_cmd="bin/check C16 (gen -> make -C coq theories/Props/C16.vo -> Print Assumptions audit -> "
                     "harness c16: mutation sweeps against the implementation + vm_compute of Cred/CredCorr.v)",
-        trusted=["Coq 8.16.1 kernel + vm_compute", "translator gen/cred.go (constants, guard shapes)",
+        trusted=["Coq 8.16.1 kernel + vm_compute",
+                 "translator gen/cred.go (constants, guard shapes, fields and receiver writes of long-lived types)",
                  "harness/cmd/c16 + checks/c16.py comparison", "roles/verif_export.go, signer/verif_export.go shims",
                  "functions, not verified: HMAC-SHA256, SHA-256, RSA PKCS#1 v1.5, encoding/json, ssh key parsing",
                  "modelled not verified: time.Time arithmetic, strings.Split/Fields, pisces KV Mutate (C05)"],
@@ -673,8 +785,11 @@ def run(ck):
              "RSA block, HS256, RS256/self) every single-bit flip, every strict prefix, every one-byte extension, "
              "hex case flips, base64url last-character/padding/CR-LF variants, header rewrites and part-count "
              "changes against the implementation (sweep:* streams, one evaluation per mutant); boundary instants "
-             "+-1 ns / +-1 s; all 2^5 claim-template combinations; seeded passcode histories (splitmix64); a case "
-             "is non-trivial unless its input is empty; distinct = distinct case content",
+             "+-1 ns / +-1 s; all 2^5 claim-template combinations; seeded passcode histories (splitmix64); "
+             "usage-pattern streams: fixed sequences on one long-lived object per type, every result shape of "
+             "every caller-supplied callback, fixed and seeded histories of card changes on one verifier, "
+             "hour-wide margins on the real clock; a case is non-trivial unless its input is empty; "
+             "distinct = distinct case content",
         assumptions=["64-bit int", "instants and lifetimes within int64 nanoseconds",
                      "mac_binds (HMAC injective) and the no-forgery premise are idealisations named in the theorems",
                      "JWT expiry follows the code: now = exp is still accepted"])
